@@ -9,7 +9,7 @@ import nodecheck
 from nodecheck import Obs, kv, parse_msg, parse_cfg
 
 PROP = "C11"
-MODULES = ["DV.Properties.C11", "DV.Properties.C11Hist", "DV.Properties.C11Dwr"]
+MODULES = ["DV.Properties.C11", "DV.Properties.C11Hist", "DV.Properties.C11Dwr", "DV.Properties.C11Send"]
 KEEP = {"OUT": None, "CONN": ["state", "live", "dwr"], "PEER": ["reason"]}
 T0 = 1700000000
 
